@@ -1,0 +1,21 @@
+//go:build verif
+
+package gortsplib
+
+import (
+	"io"
+
+	"github.com/bluenviron/gortsplib/v5/internal/asyncprocessor"
+	"github.com/bluenviron/gortsplib/v5/internal/base64streamreader"
+)
+
+// Re-exports for the external verification harness (build tag verif).
+// Internal packages cannot be imported from another module.
+
+// VerifAsyncProcessor is asyncprocessor.Processor.
+type VerifAsyncProcessor = asyncprocessor.Processor
+
+// VerifNewBase64StreamReader is base64streamreader.New.
+func VerifNewBase64StreamReader(r io.Reader) io.Reader {
+	return base64streamreader.New(r)
+}
